@@ -69,6 +69,10 @@ Section C07.
     mature s' = true -> (0 <= season s -> hflag s' = true) /\ in_season c s' = false.
   Proof. exact (day_step_mature Phys W Row Out proc dead matured summary_of). Qed.
 
+  (* ... and once a season's harvest is recorded (maturity, death or the latest harvest date) no later day of it is in season *)
+  Theorem C07_season_ends_at_harvest : forall c s, hflag s = true -> in_season c s = false.
+  Proof. exact (hflag_not_in_season Phys dead). Qed.
+
   Theorem C07_season_end_harvest_date : forall c w s s' r sr h, day_step c w s = (s', r, sr) ->
     0 <= season s -> nthZ (harv c) (season s) = Some h -> h = tsc s + 1 -> hflag s' = true.
   Proof. exact (day_step_harvest_date Phys W Row Out proc dead matured summary_of). Qed.
@@ -107,5 +111,6 @@ Print Assumptions C07_step.
 Print Assumptions C07_dap.
 Print Assumptions C07_season_end_maturity.
 Print Assumptions C07_season_end_harvest_date.
+Print Assumptions C07_season_ends_at_harvest.
 Print Assumptions C07_terminates.
 Print Assumptions C07_initial.
